@@ -163,12 +163,21 @@ Variants(P, t) ==
     [] t.k = "verdict"  -> <<[n |-> "Accept", ts |-> <<t.a>>], [n |-> "Reject", ts |-> <<t.r>>]>>
     [] IsEnumTy(P, t)   -> DeclOf(P, t.n).vs
     [] OTHER            -> <<>>
-CanMatch(P, t) == t.k \in {"opt", "verdict"} \/ IsEnumTy(P, t)
+CanMatch(P, t) == t.k \in {"opt", "verdict", "any"} \/ IsEnumTy(P, t)
+
+(* A value whose type this judgement could not determine (`any`: the result of *)
+(* a diverging initialiser, the payload of Option.None, an element of [])     *)
+(* may have been pinned by roto through a later unification (an assignment,   *)
+(* an argument position).  The judgement cannot know, so such a value is      *)
+(* accepted wherever a particular class of type is required (operand of an    *)
+(* arithmetic / ordering operator, field access, match): the permissive side. *)
+Flex(t) == t.k = "any"
 
 (* type of the field path fs[k..] starting from type t (Err when missing) *)
 RECURSIVE PathTy(_, _, _, _)
 PathTy(P, t, fs, k) ==
   IF k > Len(fs) THEN t
+  ELSE IF Flex(t) THEN AnyT
   ELSE IF t.k = "anon" /\ HasField(t.fs, fs[k]) THEN PathTy(P, FieldTy(t.fs, fs[k]), fs, k + 1)
   ELSE IF IsRecordTy(P, t) /\ HasField(DeclOf(P, t.n).fs, fs[k])
        THEN PathTy(P, FieldTy(DeclOf(P, t.n).fs, fs[k]), fs, k + 1)
@@ -182,7 +191,8 @@ RECURSIVE Chk(_, _, _, _), ChkBlock(_, _, _, _), ChkStmts(_, _, _, _, _),
 (* arithmetic on a left operand of type lt: expected type for the right one, *)
 (* Err when the operator does not apply (expr.rs binop)                      *)
 ArithRight(op, lt) ==
-  IF op = "add" /\ lt.k \in {"String", "list"} THEN lt
+  IF Flex(lt) THEN AnyT
+  ELSE IF op = "add" /\ lt.k \in {"String", "list"} THEN lt
   ELSE IF op = "mod" THEN (IF IsIntTy(lt) THEN lt ELSE Err)
   ELSE IF IsNumericTy(lt) THEN lt ELSE Err
 
@@ -204,7 +214,9 @@ Chk(P, i, env, exp) ==
          (* operand checked on its own; unsigned operand rejected; an integer *)
          (* literal operand becomes "must be signed"                          *)
          LET r == Chk(P, n.e, env, AnyT) IN
-         IF ~Ok(r) \/ r.t.k \in UnsignedK \/ ~IsNumericTy(r.t) THEN Bad
+         IF ~Ok(r) THEN Bad
+         ELSE IF Flex(r.t) THEN R(Unify(P, exp, AnyT), r.d)
+         ELSE IF r.t.k \in UnsignedK \/ ~IsNumericTy(r.t) THEN Bad
          ELSE R(Unify(P, exp, IF r.t.k = "int" THEN T("sint") ELSE r.t), r.d)
     [] n.k = "not"   ->
          LET r == Chk(P, n.e, env, Bool) IN
@@ -221,7 +233,7 @@ Chk(P, i, env, exp) ==
            IF ~Ok(r) THEN Bad ELSE R(Unify(P, exp, Bool), l.d \/ r.d)
          ELSE IF n.op \in {"lt", "le", "gt", "ge"} THEN
            LET l == Chk(P, n.l, env, AnyT) IN
-           IF ~Ok(l) \/ ~IsNumericTy(l.t) THEN Bad ELSE
+           IF ~Ok(l) \/ (~IsNumericTy(l.t) /\ ~Flex(l.t)) THEN Bad ELSE
            LET r == Chk(P, n.r, env, l.t) IN
            IF ~Ok(r) THEN Bad ELSE R(Unify(P, exp, Bool), l.d \/ r.d)
          ELSE
@@ -314,8 +326,12 @@ Chk(P, i, env, exp) ==
     [] n.k = "match" ->
          LET s == Chk(P, n.e, env, AnyT) IN
          IF ~Ok(s) \/ s.d \/ ~CanMatch(P, s.t) THEN Bad
+         ELSE IF Flex(s.t) THEN
+              (* unknown scrutinee type: the arms themselves say which variants exist; no exhaustiveness claim *)
+              ChkArms(P, n.arms, [x \in DOMAIN n.arms |-> [n |-> n.arms[x].v, ts |-> [y \in DOMAIN n.arms[x].bs |-> AnyT]]],
+                      env, exp, [k |-> 1, used |-> {}, dflt |-> FALSE, d |-> TRUE, open |-> TRUE])
          ELSE ChkArms(P, n.arms, Variants(P, s.t), env, exp,
-                      [k |-> 1, used |-> {}, dflt |-> FALSE, d |-> TRUE])
+                      [k |-> 1, used |-> {}, dflt |-> FALSE, d |-> TRUE, open |-> FALSE])
     [] n.k = "try"   ->
          (* operand is an Option of the expected type; only in a function     *)
          (* returning an Option                                               *)
@@ -400,7 +416,7 @@ ChkFields(P, fs, dfs, env, k, d) ==
 ChkArms(P, arms, vs, env, exp, st) ==
   IF st.k > Len(arms) THEN
     (* exhaustive: a default arm or every variant covered by an unguarded arm *)
-    IF ~st.dflt /\ st.used # Range(Names(vs)) THEN Bad ELSE R(exp, st.d)
+    IF ~st.open /\ ~st.dflt /\ st.used # Range(Names(vs)) THEN Bad ELSE R(exp, st.d)
   ELSE LET a == arms[st.k] IN
     IF st.dflt THEN Bad                                      \* unreachable after `_`
     ELSE IF a.v = "_" THEN
@@ -411,7 +427,7 @@ ChkArms(P, arms, vs, env, exp, st) ==
          LET b == ChkBlock(P, a.b, env2, exp) IN
          IF ~Ok(b) THEN Bad
          ELSE ChkArms(P, arms, vs, env, b.t,
-                      [k |-> st.k + 1, used |-> st.used, dflt |-> (a.g = <<>>), d |-> st.d /\ b.d])
+                      [k |-> st.k + 1, used |-> st.used, dflt |-> (a.g = <<>>), d |-> st.d /\ b.d, open |-> st.open])
     ELSE IF ~HasField(vs, a.v) THEN Bad                        \* unknown variant
     ELSE LET v == vs[CHOOSE x \in DOMAIN vs : vs[x].n = a.v] IN
       IF (a.hb /\ (v.ts = <<>> \/ Len(a.bs) # Len(v.ts))) \/ (~a.hb /\ (v.ts # <<>> \/ a.bs # <<>>))
@@ -425,7 +441,7 @@ ChkArms(P, arms, vs, env, exp, st) ==
          IF ~Ok(b) THEN Bad
          ELSE ChkArms(P, arms, vs, env, b.t,
                       [k |-> st.k + 1, used |-> IF a.g = <<>> THEN st.used \cup {a.v} ELSE st.used,
-                       dflt |-> FALSE, d |-> st.d /\ b.d])
+                       dflt |-> FALSE, d |-> st.d /\ b.d, open |-> st.open])
 
 (* ------------------------------------------------------------- whole program *)
 (* nodes of the subtree rooted at node i *)
@@ -469,11 +485,11 @@ ReachFrom(P, x) == Reach(P, Refs(P, x), Refs(P, x))
 (* a constant must not depend on itself, directly or through functions *)
 NoConstCycle(P) == \A x \in ItemIdx(P) : P.decls[x].k = "const" => x \notin ReachFrom(P, x)
 
-(* named types that a declared type stores inline (Option arguments count, a *)
-(* list only holds a pointer: type_cycle.rs)                                 *)
+(* named types a declared type refers to, also through the arguments of       *)
+(* Option and List (type_cycle.rs: type arguments are part of the cycle check) *)
 RECURSIVE Inline(_)
 Inline(t) == CASE t.k = "named" -> {t.n}
-               [] t.k = "opt"   -> Inline(t.a)
+               [] t.k \in {"opt", "list"} -> Inline(t.a)
                [] OTHER         -> {}
 TypeRefs(P, nm) ==
   IF ~HasDecl(P, nm) THEN {} ELSE
